@@ -1226,3 +1226,152 @@ def gen_match_module(rng, nfuncs, hist=None):
         srcs.append(src)
         calls[name] = tuples
     return HEADER + "\n\n".join(srcs), calls
+
+
+# ---------------------------------------------------------------------------
+# every binding form of the grammar as a value source whose runtime object is recorded: except / except*
+# handlers (tuples mixing Exception and bare BaseException subclasses; the exceptions and groups are raised
+# by prelude helpers so that every handler really runs), with ... as, for targets over heterogeneous tuples,
+# walrus, comprehension variables, import ... as, global / nonlocal writes.  The bound name and values
+# derived from it (e.args, g.exceptions, type(e), ...) are read afterwards.
+# (Seeded change round 4: `except* (ValueError, KeyboardInterrupt) as g` inferred ExceptionGroup[...] when
+# *any* (instead of all) of the handler's classes is an Exception subclass.)
+
+_EXC_CLASSES = ["ValueError", "KeyError", "Halt", "AppError", "KeyboardInterrupt", "OSError", "LookupError", "Exception", "BaseException", "ArithmeticError"]
+_HET_TUPLES = ["(p, 's', None)", "(1, 'a', 2.5, None)", "(p, (p, 's'), [p])", "((1, 'x'), (None, 2.5))", "(p, not p, str(p))"]
+_P_TYPES = [("int", ["0", "1", "2", "3", "4", "5", "6"]), ("Optional[int]", ["None", "0", "3"]), ("Union[int, str]", ["1", "'a'", "0", "''"])]
+
+
+def _exc_tuple(rng):
+    k = rng.choice([1, 1, 2, 2, 3])
+    cs = rng.sample(_EXC_CLASSES, k)
+    return cs[0] if k == 1 and rng.random() < 0.7 else "(" + ", ".join(cs) + ("," if k == 1 else "") + ")"
+
+
+def gen_binding_function(rng, name, hist=None):
+    """returns (module-level lines before the function, function source, argument tuples)"""
+    kind = rng.choice(["except", "except", "except_star", "except_star", "except_star", "with", "for", "for", "walrus", "comp", "comp",
+                       "import", "global", "nonlocal", "nested_except"])
+    ind = "    "
+    pre = []
+    ann, samples = rng.choice(_P_TYPES)
+    if kind in ("except", "except_star", "nested_except"):
+        ann, samples = "int", ["0", "1", "2", "3", "4", "5", "6"]
+    L = [f"def {name}(p: {ann}):"]
+    if kind == "except":
+        nh = rng.randrange(1, 4)
+        L += [f"{ind}r = None", f"{ind}try:", f"{ind * 2}q = lib_raise(p)"]
+        for i in range(nh):
+            L += [f"{ind}except {_exc_tuple(rng)} as e{i}:",
+                  f"{ind * 2}r = (e{i}, {rng.choice([f'e{i}.args', f'type(e{i})', f'str(e{i})', f'e{i}.args[0] if e{i}.args else None', f'isinstance(e{i}, Exception)'])})"]
+            if rng.random() < 0.3:
+                L += [f"{ind * 2}if isinstance(e{i}, {rng.choice(_EXC_CLASSES)}):", f"{ind * 3}r = e{i}"]
+        if rng.random() < 0.4:
+            L += [f"{ind}except BaseException as eb:", f"{ind * 2}r = (eb, type(eb))"]
+        if rng.random() < 0.3:
+            L += [f"{ind}else:", f"{ind * 2}r = q"]
+        if rng.random() < 0.3:
+            L += [f"{ind}finally:", f"{ind * 2}z = r"]
+        L += [f"{ind}return r"]
+    elif kind == "except_star":
+        nh = rng.randrange(1, 4)
+        L += [f"{ind}r = []", f"{ind}try:", f"{ind * 2}q = lib_raise_group(p)"]
+        used = set()
+        for i in range(nh):
+            t = _exc_tuple(rng)
+            if t in used:
+                continue
+            used.add(t)
+            L += [f"{ind}except* {t} as g{i}:",
+                  f"{ind * 2}r.append((g{i}, {rng.choice([f'g{i}.exceptions', f'type(g{i})', f'g{i}.message', f'g{i}.exceptions[0]', f'len(g{i}.exceptions)'])}))"]
+        if rng.random() < 0.5:
+            L += [f"{ind}except* BaseException as gb:", f"{ind * 2}r.append((gb, gb.exceptions))"]
+        L += [f"{ind}return r"]
+    elif kind == "nested_except":
+        L += [f"{ind}r = None", f"{ind}try:", f"{ind * 2}try:", f"{ind * 3}q = lib_raise(p)",
+              f"{ind * 2}except {_exc_tuple(rng)} as e0:", f"{ind * 3}r = e0", f"{ind * 3}raise {rng.choice(['', 'AppError(3) from e0', 'Halt(e0)'])}".rstrip(),
+              f"{ind}except {_exc_tuple(rng)} as e1:", f"{ind * 2}r = (r, e1, e1.__cause__, e1.args)",
+              f"{ind}except BaseException as e2:", f"{ind * 2}r = (r, e2)", f"{ind}return r"]
+    elif kind == "with":
+        tgt = rng.choice(["v", "v", "(a, b)"])
+        inner = rng.choice(["p", "(p, 's')", "[p]", "{'k': p}", "Inner(None, 's')"]) if tgt == "v" else rng.choice(["(p, 's')", "(None, p)"])
+        L += [f"{ind}with Ctx({inner}) as {tgt}:", f"{ind * 2}r = {tgt}"]
+        if rng.random() < 0.5:
+            L += [f"{ind * 2}with Ctx(r) as w, suppress(ValueError) as sp:", f"{ind * 3}r = (w, sp)"]
+        L += [f"{ind}return (r, {tgt})"]
+    elif kind == "for":
+        form = rng.randrange(5)
+        if form == 0:
+            L += [f"{ind}r = []", f"{ind}for x in {rng.choice(_HET_TUPLES)}:", f"{ind * 2}r.append(x)", f"{ind * 2}y = x", f"{ind}return (r, x, y)"]
+        elif form == 1:
+            L += [f"{ind}r = None", f"{ind}for a, b in ((1, 'x'), (None, 2.5), (p, p)):", f"{ind * 2}r = (a, b)", f"{ind * 2}if a is None:", f"{ind * 3}break",
+                  f"{ind}else:", f"{ind * 2}r = (r, a, b)", f"{ind}return (r, a, b)"]
+        elif form == 2:
+            L += [f"{ind}r = None", f"{ind}for i, x in enumerate((p, 's', None)):", f"{ind * 2}r = (i, x)", f"{ind}return (r, i, x)"]
+        elif form == 3:
+            L += [f"{ind}d = {{'a': p, 'b': 's', 'c': None}}", f"{ind}r = None", f"{ind}for k, v in d.items():", f"{ind * 2}r = (k, v)", f"{ind}return (r, k, v)"]
+        else:
+            L += [f"{ind}r = None", f"{ind}for (a, (b, c)), *rest in (((1, (p, 's')), 2, 3), ((None, ('t', p)),)):", f"{ind * 2}r = (a, b, c, rest)", f"{ind}return (r, a, b, c, rest)"]
+    elif kind == "walrus":
+        form = rng.randrange(4)
+        if form == 0:
+            L += [f"{ind}if (w := p) is not None:", f"{ind * 2}return (w, p)", f"{ind}return w"]
+        elif form == 1:
+            L += [f"{ind}r = (y := p) and y", f"{ind}return (r, y)"]
+        elif form == 2:
+            L += [f"{ind}r = [z := p, z, (z2 := (z, 's'))[0]]", f"{ind}return (r, z, z2)"]
+        else:
+            L += [f"{ind}while (n := lib_opt(p)) and p:", f"{ind * 2}p = None", f"{ind}return (n, p)"]
+    elif kind == "comp":
+        form = rng.randrange(6)
+        src = rng.choice(_HET_TUPLES)
+        if form == 0:
+            L += [f"{ind}r = [x for x in {src}]", f"{ind}return r"]
+        elif form == 1:
+            L += [f"{ind}r = [x for x in {src} if x is not None]", f"{ind}return r"]
+        elif form == 2:
+            L += [f"{ind}r = {{k: v for k, v in (('a', p), ('b', None), (1, 's'))}}", f"{ind}return r"]
+        elif form == 3:
+            L += [f"{ind}r = tuple((x, y) for x in (p, None) for y in ('s', x))", f"{ind}return r"]
+        elif form == 4:
+            L += [f"{ind}r = {{x if isinstance(x, int) else 0 for x in (p, 's', None)}}", f"{ind}return r"]
+        else:
+            L += [f"{ind}r = [[y for y in (x, p)] for x in ('s', None)]", f"{ind}return (r, [w for w in (p,) if w])"]
+    elif kind == "import":
+        form = rng.randrange(4)
+        if form == 0:
+            L += [f"{ind}import math as mm", f"{ind}r = (mm.pi, mm.floor(1.5), mm)", f"{ind}return r"]
+        elif form == 1:
+            L += [f"{ind}from os import path as pp, sep as ss", f"{ind}r = (pp.join('a', 'b'), ss, pp)", f"{ind}return r"]
+        elif form == 2:
+            L += [f"{ind}import collections.abc as cabc, json as js", f"{ind}r = (cabc.Sequence, js.dumps(p), isinstance((p,), cabc.Sequence))", f"{ind}return r"]
+        else:
+            L += [f"{ind}from c01_prelude import Inner as In, lib_ident as li", f"{ind}r = (In(None, 's'), li(p), In)", f"{ind}return r"]
+    elif kind == "global":
+        g = f"G_{name}"
+        pre = [f"{g} = {rng.choice(['0', 'None', '(1, 2)'])}"]
+        L += [f"{ind}global {g}", f"{ind}before = {g}", f"{ind}{g} = {rng.choice(['p', '(p, 1)', 'str(p)', '[p]'])}", f"{ind}after = {g}", f"{ind}return (before, after, {g})"]
+    else:  # nonlocal
+        L += [f"{ind}x = {rng.choice(['0', 'None', chr(39) + 's' + chr(39)])}", f"{ind}y = x",
+              f"{ind}def inner(q: int):", f"{ind * 2}nonlocal x", f"{ind * 2}before = x", f"{ind * 2}x = {rng.choice(['p', '(p, q)', 'q'])}", f"{ind * 2}return (before, x)",
+              f"{ind}r = inner(1)", f"{ind}return (r, x, y)"]
+    if hist is not None:
+        hist["bind:" + kind] = hist.get("bind:" + kind, 0) + 1
+    return pre, "\n".join(L) + "\n", [f"({s},)" for s in samples]
+
+
+def gen_binding_module(rng, nfuncs, hist=None):
+    pres, srcs, calls = [], [], {}
+    i = 0
+    while len(srcs) < nfuncs:
+        name = f"b{i}"
+        i += 1
+        pre, src, tuples = gen_binding_function(rng, name, hist)
+        try:
+            compile("\n".join(pre) + "\n" + src, "<gen>", "exec")
+        except SyntaxError:
+            continue
+        pres += pre
+        srcs.append(src)
+        calls[name] = tuples
+    return HEADER + "\n".join(pres) + "\n\n" + "\n\n".join(srcs), calls
